@@ -158,7 +158,16 @@ func c14One(s []int, w, h, c, p, near int, res *mon.Result) (class, msg string) 
 			return "reference-decodes-other-image", fmt.Sprintf("nearlossless stream NEAR=%d: independent T.87 decoder sample %d (x=%d y=%d comp=%d) = %d, library decoder = %d, source = %d", near, i, (i/c)%w, i/c/w, i%c, r.Samples[i], libS[i], s[i])
 		}
 	}
+	if r.Stats.OverlongPrefix > 0 {
+		return "overlong-escape-prefix", fmt.Sprintf("stream NEAR=%d P=%d: %d Golomb code words have a unary prefix longer than LIMIT-qbpp-1 zeros (T.87 A.5.3: the escape prefix is exactly LIMIT-qbpp-1 zeros followed by a one)", near, p, r.Stats.OverlongPrefix)
+	}
+	if r.Stats.NonCanonicalRunEnd > 0 {
+		return "noncanonical-run-end", fmt.Sprintf("stream NEAR=%d P=%d: %d runs that reach the end of their line are coded as an interrupted run ('0' + remainder) instead of the '1' of T.87 A.7.1.2", near, p, r.Stats.NonCanonicalRunEnd)
+	}
 	if res != nil {
+		if p >= 11 {
+			res.AddFeat("ref_escape_codes_at_P>=11(split prefix)", int64(r.Stats.Escapes))
+		}
 		res.AddFeat("ref_regular_samples", int64(r.Stats.Regular))
 		res.AddFeat("ref_run_samples", int64(r.Stats.RunSamples))
 		res.AddFeat("ref_run_interruptions", int64(r.Stats.Interruptions))
